@@ -95,6 +95,17 @@ func parmsDict(s stage, r *rand.Rand) core.Object {
 func buildStream(x []byte, pipe []stage, r *rand.Rand) *core.Stream {
 	data := x
 	for i := len(pipe) - 1; i >= 0; i-- {
+		if pipe[i].Pred > 1 && i != len(pipe)-1 {
+			// a predicting stage that is not the innermost one sees the bytes the
+			// later stages produced: pick a geometry that tiles them
+			gs := geometries(len(data))
+			if len(data) == 0 || len(gs) == 0 {
+				pipe[i].Cols, pipe[i].Colors = 1+r.Intn(8), 1+r.Intn(3)
+			} else {
+				g := gs[r.Intn(len(gs))]
+				pipe[i].Cols, pipe[i].Colors = g[0], g[1]
+			}
+		}
 		data = encodeStage(pipe[i], data, r)
 	}
 	d := core.Dict{"Length": core.Int(len(data))}
@@ -425,14 +436,9 @@ func Run(c *fw.Ctx) {
 		for k := range pipe {
 			pipe[k] = randStage(r, []string{"Fl", "Fl", "AHx", "A85"}[r.Intn(4)], len(x))
 		}
-		// predictor geometry: the bytes that reach a predicting Flate stage are x
-		// encoded by the later stages; only the last stage sees x itself, so
-		// give predictors to the innermost (last) stage only and pad x to tile.
-		for k := range pipe {
-			if pipe[k].Pred > 1 && k != len(pipe)-1 {
-				pipe[k].Pred = 1
-			}
-		}
+		// predictor geometry: the innermost (last) stage sees x itself (x is trimmed
+		// to tile a random geometry); outer predicting stages get a geometry that
+		// tiles the bytes produced by the later stages (chosen in buildStream).
 		if np > 0 && pipe[np-1].Pred > 1 {
 			cols, colors := 1+r.Intn(64), 1+r.Intn(4)
 			pipe[np-1].Cols, pipe[np-1].Colors = cols, colors
